@@ -322,6 +322,61 @@ proof fn theorem_c09_upload_delivers_body(x0: Seq<u8>, body: Seq<u8>, s: int, k:
     assert(body.subrange(0, k * s) + p =~= body);
 }
 
+// ---------------------------------------------------------------- C08 history lemma
+// block n of a body at block size s, as `served` states it
+pub open spec fn block_of(body: Seq<u8>, n: int, s: int) -> Seq<u8> { body.subrange(n * s, min_int((n + 1) * s, body.len() as int)) }
+pub open spec fn blocks_concat(body: Seq<u8>, s: int, k: int) -> Seq<u8>
+    decreases k
+{ if k <= 0 { Seq::empty() } else { blocks_concat(body, s, k - 1) + block_of(body, k - 1, s) } }
+proof fn lemma_blocks_concat(body: Seq<u8>, s: int, k: int)
+    requires s > 0, 0 <= k, (k - 1) * s < body.len() || k == 0
+    ensures blocks_concat(body, s, k) == body.subrange(0, min_int(k * s, body.len() as int))
+    decreases k
+{
+    if k > 0 {
+        lemma_mul_mono(k - 1, k, s);
+        assert((k - 1) * s + s == k * s) by (nonlinear_arith);
+        if k - 1 > 0 { lemma_mul_mono(k - 2, k - 1, s); }
+        lemma_mul_mono(0, k - 1, s);
+        lemma_blocks_concat(body, s, k - 1);
+        let len = body.len() as int;
+        assert(min_int((k - 1) * s, len) == (k - 1) * s);
+        assert(body.subrange(0, (k - 1) * s) + body.subrange((k - 1) * s, min_int(k * s, len)) =~= body.subrange(0, min_int(k * s, len)));
+    } else {
+        assert(k * s == 0) by (nonlinear_arith) requires k == 0;
+        assert(body.subrange(0, 0) =~= Seq::<u8>::empty());
+    }
+}
+// C08: a client fetching blocks 0,1,2,... at block size s reassembles exactly the body: block n exists iff n*s < len,
+// every non-final block has exactly s bytes and the more flag, the last one has the remainder and no more flag, and
+// the concatenation of the K = ceil(len/s) blocks is the body
+proof fn theorem_c08_blocks_reassemble(body: Seq<u8>, s: int, k: int)
+    requires s > 0, k >= 1, (k - 1) * s < body.len() <= k * s
+    ensures
+        blocks_concat(body, s, k) == body,
+        forall|n: int| 0 <= n < k - 1 ==> (#[trigger] block_of(body, n, s)).len() == s && (n + 1) * s < body.len(),
+        block_of(body, k - 1, s).len() == body.len() - (k - 1) * s && !(k * s < body.len()),
+        !(k * s < body.len()),          // a request for block k finds nothing: n*s >= len  (served: Err)
+{
+    lemma_blocks_concat(body, s, k);
+    assert(body.subrange(0, body.len() as int) =~= body);
+    assert((k - 1) * s + s == k * s) by (nonlinear_arith);
+    lemma_mul_mono(0, k - 1, s);
+    assert forall|n: int| 0 <= n < k - 1 implies (#[trigger] block_of(body, n, s)).len() == s && (n + 1) * s < body.len() by {
+        lemma_mul_mono(n + 1, k - 1, s);
+        lemma_mul_mono(0, n, s);
+        assert(n * s + s == (n + 1) * s) by (nonlinear_arith);
+    }
+}
+// a client that lowers the block size mid-transfer rescales the block number so that the byte offset stays the
+// same (RFC 7959 2.4): the block it gets then starts at that offset
+proof fn lemma_c08_rescaled_offset(body: Seq<u8>, n: int, s: int, n2: int, s2: int)
+    requires s > 0, s2 > 0, n >= 0, n2 >= 0, n * s == n2 * s2, n * s < body.len()
+    ensures block_of(body, n2, s2) == body.subrange(n * s, min_int(n * s + s2, body.len() as int))
+{
+    assert(n2 * s2 + s2 == (n2 + 1) * s2) by (nonlinear_arith);
+}
+
 // ---------------------------------------------------------------- vacuity probes for the stubs
 // (each must FAIL in the vacuity run: a stub whose assumed contract were contradictory would make
 // everything after a call to it verify trivially)
@@ -615,7 +670,7 @@ def build(repo):
                             assert(served(q0, *request, request_block2, msg, Ok(true)));
                             assert(intercept_resp_post(q0, *request, st0, *state, m, Ok(true)));
                         }''')
-    for fn, pr in [('theorem_c09_upload_delivers_body', ['C09']), ('lemma_b1_idempotent', ['C09']), ('lemma_after_blocks', ['C09'])]:
+    for fn, pr in [('theorem_c08_blocks_reassemble', ['C08']), ('lemma_blocks_concat', ['C08']), ('lemma_c08_rescaled_offset', ['C08']), ('theorem_c09_upload_delivers_body', ['C09']), ('lemma_b1_idempotent', ['C09']), ('lemma_after_blocks', ['C09'])]:
         u.probe(fn)
         u.props(fn, pr)
     u.finish(common.HEAD)
